@@ -104,7 +104,7 @@ def mutate_lines(rng, a):
     return bl
 
 
-def gen_workspace(rng, npatches=None, fail_prob=0.4, features=("modify", "create", "delete", "rename", "mode", "dup", "reverse", "strip", "newdir")):
+def gen_workspace(rng, npatches=None, fail_prob=0.4, features=("modify", "create", "delete", "rename", "mode", "dup", "reverse", "strip", "newdir"), nfail=1):
     names = [b"f", b"g.c", b"dir/h.txt", b"dir/sub/k", b"e"]
     rng.shuffle(names)
     nfiles = rng.randint(1, 4)
@@ -119,6 +119,7 @@ def gen_workspace(rng, npatches=None, fail_prob=0.4, features=("modify", "create
     series_lines = []
     npatches = npatches or rng.randint(1, 6)
     fail_at = rng.randrange(npatches) if rng.random() < fail_prob else None
+    fail_set = set() if fail_at is None else {fail_at} | {rng.randrange(npatches) for _ in range(nfail - 1)}
     for pi in range(npatches):
         pname = b"p%d.patch" % pi
         if rng.random() < 0.1:
@@ -255,7 +256,7 @@ def gen_workspace(rng, npatches=None, fail_prob=0.4, features=("modify", "create
                 else:
                     text += file_patch_text(rng, prefix_a + n, prefix_b + n, a, bl, ctx, "plain")
                 new_tree[n] = (bl, m)
-        if fail_at == pi and text:
+        if pi in fail_set and text:
             # corrupt: make some hunk not match
             ls = text.split(b"\n")
             idx = [i for i, l in enumerate(ls) if l[:1] in (b" ", b"-") and not l.startswith(b"---")]
